@@ -647,6 +647,93 @@ theorem beamCX_extrapolated_returns {E : Ext α} (S : ExtSpec E) (cf wl : α) (c
   exact ⟨v, key v hv, hv⟩
 
 
+/-! ### the clamp chain: non-negativity of BeamCXPEC rests on *every* `if rate <= 0: return 0.0`
+
+The factors `qti qni qz qb` are cubic-interpolated in linear space, so between knots of a steep (strictly positive)
+table they can be negative.  `cxChainF` runs the chain with the clamp flags the translator reads from the source. -/
+
+/-- the nested transcription `beamCX` is the fully clamped chain applied to the interpolators' values -/
+theorem beamCX_eq_chain (E : Ext α) (cf wl : α) (ex : Bool) (c : CXTable α) (en T d z bf : α) :
+    beamCX E cf wl ex c en T d z bf =
+      if en ≤ 0 then Out.val 0 else
+      match interpOrConst E (kindOf Extrap.quadratic ex) (c.eb.map E.logc)
+          (c.qeb.map fun y => E.logc (photonToJ cf y wl)) (E.loge en) with
+      | none => Out.valueError
+      | some l => cxChain (E.pow10 l)
+          [interpOrConst E (kindOf Extrap.nearest ex) c.ti (c.qti.map fun y => y / c.qref) T,
+           interpOrConst E (kindOf Extrap.nearest ex) c.ni (c.qni.map fun y => y / c.qref) d,
+           interpOrConst E (kindOf Extrap.nearest ex) c.z (c.qz.map fun y => y / c.qref) z,
+           interpOrConst E (kindOf Extrap.nearest ex) c.b (c.qb.map fun y => y / c.qref) bf] := by
+  unfold beamCX
+  simp only []
+  split_ifs with h0
+  · rfl
+  · cases interpOrConst E (kindOf Extrap.quadratic ex) (c.eb.map E.logc)
+        (c.qeb.map fun y => E.logc (photonToJ cf y wl)) (E.loge en) with
+    | none => rfl
+    | some l =>
+      simp only [cxChain, List.map_cons, List.map_nil]
+      cases interpOrConst E (kindOf Extrap.nearest ex) c.ti (c.qti.map fun y => y / c.qref) T with
+      | none => simp [cxChainF]
+      | some f1 =>
+        by_cases c1 : E.pow10 l * f1 ≤ 0
+        · simp [cxChainF, clampMul, c1]
+        · cases interpOrConst E (kindOf Extrap.nearest ex) c.ni (c.qni.map fun y => y / c.qref) d with
+          | none => simp [cxChainF, clampMul, c1]
+          | some f2 =>
+            by_cases c2 : E.pow10 l * f1 * f2 ≤ 0
+            · simp [cxChainF, clampMul, c1, c2]
+            · cases interpOrConst E (kindOf Extrap.nearest ex) c.z (c.qz.map fun y => y / c.qref) z with
+              | none => simp [cxChainF, clampMul, c1, c2]
+              | some f3 =>
+                by_cases c3 : E.pow10 l * f1 * f2 * f3 ≤ 0
+                · simp [cxChainF, clampMul, c1, c2, c3]
+                · cases interpOrConst E (kindOf Extrap.nearest ex) c.b (c.qb.map fun y => y / c.qref) bf with
+                  | none => simp [cxChainF, clampMul, c1, c2, c3]
+                  | some f4 =>
+                    by_cases c4 : E.pow10 l * f1 * f2 * f3 * f4 ≤ 0
+                    · simp [cxChainF, clampMul, c1, c2, c3, c4]
+                    · simp [cxChainF, clampMul, c1, c2, c3, c4]
+
+/-- **non-negativity of the chain** for any number of factors with any (also negative) values — *provided every
+factor is clamped* -/
+theorem cxChainF_nonneg (fs : List (Option α × Bool)) (hall : ∀ p ∈ fs, p.2 = true) (rate v : α) (hr : 0 < rate)
+    (h : cxChainF rate fs = Out.val v) : 0 ≤ v := by
+  induction fs generalizing rate with
+  | nil => simp only [cxChainF] at h; cases h; exact hr.le
+  | cons p rest ih =>
+    obtain ⟨f, cl⟩ := p
+    have hcl : cl = true := hall (f, cl) (by simp)
+    subst hcl
+    cases f with
+    | none => simp [cxChainF] at h
+    | some f =>
+      simp only [cxChainF, true_and] at h
+      split_ifs at h with hc
+      · cases h; exact le_refl _
+      · exact ih (fun p hp => hall p (List.mem_cons_of_mem _ hp)) (rate * f) (not_le.mp hc) h
+
+/-- … and it **depends on the final clamp**: drop it (`return rate * self._b.evaluate(b_field)`) and a negative last
+factor — a cubic undershoot of a steep positive `qb` table — comes out as a negative rate -/
+theorem cxChainF_negative_without_final_clamp (fs : List (Option α × Bool)) (rate f r : α)
+    (h : cxChainF rate fs = Out.val r) (hr : 0 < r) (hf : f < 0) :
+    ∃ v, v < 0 ∧ cxChainF rate (fs ++ [(some f, false)]) = Out.val v := by
+  induction fs generalizing rate with
+  | nil =>
+    simp only [cxChainF] at h
+    cases h
+    exact ⟨r * f, mul_neg_of_pos_of_neg hr hf, by simp [cxChainF]⟩
+  | cons p rest ih =>
+    obtain ⟨g, cl⟩ := p
+    cases g with
+    | none => simp [cxChainF] at h
+    | some g =>
+      simp only [cxChainF] at h
+      simp only [List.cons_append, cxChainF]
+      split_ifs at h with hc
+      · cases h; exact absurd hr (lt_irrefl _)
+      · rw [if_neg hc]; exact ih (rate * g) h
+
 /-! ### BeamCXPEC as it is: the complete guard in front of the chain (`beamCXGuarded true`) -/
 
 theorem beamCXGuarded_as_is (E : Ext α) (cf wl : α) (ex : Bool) (c : CXTable α) (en T d z bf : α) :
